@@ -34,7 +34,7 @@ pub struct X {
 
 fn timer_id(a: &Action) -> u8 {
     match a {
-        Action::Interval { timer, .. } | Action::IntervalWith { timer, .. } | Action::DelayedSend { timer, .. } | Action::DelayedExec { timer, .. } => *timer,
+        Action::Interval { timer, .. } | Action::IntervalWith { timer, .. } | Action::DelayedSend { timer, .. } | Action::DelayedExec { timer, .. } | Action::LongExec { timer, .. } => *timer,
         _ => 0,
     }
 }
@@ -57,6 +57,9 @@ fn oracle(s: &ProgScene<X>, t: &Trace) -> Vec<Violation> {
             Action::IntervalWith { period, .. } => ("interval_with", eff(*period), true, false),
             Action::DelayedSend { delay, .. } => ("delayed_send", eff(*delay), false, false),
             Action::DelayedExec { delay, .. } => ("delayed_exec", eff(*delay), false, true),
+            // (a future that takes `work` ticks of its own: its effect is due after delay + work,
+            // and it is the actor's timer from the moment it is registered until then)
+            Action::LongExec { delay, work, .. } => ("delayed_exec of a long future", eff(*delay).saturating_add(eff(*work)), false, true),
             _ => continue,
         };
         let fires: Vec<(usize, u64)> = an
@@ -384,7 +387,9 @@ fn timer_of(kind: u8, id: u8, p: u32) -> Action {
         0 => Action::Interval { timer: id, period: p },
         1 => Action::IntervalWith { timer: id, period: p },
         2 => Action::DelayedSend { timer: id, delay: p },
-        _ => Action::DelayedExec { timer: id, delay: p },
+        3 => Action::DelayedExec { timer: id, delay: p },
+        4 => Action::LongExec { timer: id, delay: 0, work: p },
+        _ => Action::LongExec { timer: id, delay: 1, work: p },
     }
 }
 
@@ -418,6 +423,24 @@ fn plain_cases(tier: Tier) -> Vec<Case> {
                                     v.push(make_case(&[(timer_of(kind, 1, p), in_handler)], term, tt, mb, work, racy, early));
                                 }
                             }
+                        }
+                    }
+                }
+            }
+        }
+    }
+    // a delayed_exec whose future takes a while itself (delay 0 or 1, then 2 or 3 ticks of its own):
+    // it goes with the actor whether it is still waiting for its delay or already under way
+    for kind in [4u8, 5] {
+        for p in [2u32, 3] {
+            for in_handler in [false, true] {
+                for &mb in &[Mailbox::U, Mailbox::B(0)] {
+                    for &term in &terms {
+                        for tt in [0u32, 1, 2, 3, 5] {
+                            if term == Term::Never && tt != 0 {
+                                continue;
+                            }
+                            v.push(make_case(&[(timer_of(kind, 1, p), in_handler)], term, tt, mb, Work::default(), false, early));
                         }
                     }
                 }
